@@ -16,6 +16,10 @@ RULES = [
     (r'== \(void \*\) 1\b|!= \(void \*\) 1\b', 'outside: NULL-argument / NULL-member guard; the listed properties never pass NULL objects'),
 ]
 OLD_RULES = [
+    (r'p_sys_close \(fd\) != 0|munmap \(.*== -1|shm_unlink \(.*== -1|fstat \(.*== -1|ftruncate \(.*== -1|sem_close \(.*== -1', 'outside: result test of a system call whose failure branch only prints a warning / is not entered by the generated histories (C18/C20 enter the failing ones they can provoke)'),
+    (r'^shm->(addr|sem|map_size|shm_created)\s*=', 'equivalent: field reset in pp_shm_clean_handle right before the structure is freed or re-initialised'),
+    (r'== EINTR\)$', 'other-property(C19): EINTR retry loop of shm_open / sem_open; C19 plans EINTR at these calls (a loop that never ends is now reported by the ipcx CPU-burn oracle)'),
+    (r'^pp_shm_clean_handle \(shm\);$', 'equivalent: the caller (p_shm_new) frees the handle, which cleans it again'),
     (r'^p_free \(|^free \(|p_\w+_free \(', 'other-property(C20): a release dropped = leak; the resource census decides it (re-run against C20/C18 where recorded)'),
     (r'== NULL\)\)$|== NULL \|\||\(\w+ == NULL', 'outside: NULL-argument guard'),
 ]
@@ -35,7 +39,7 @@ rows = []; tot = dict(run=0, caught=0, surv=0, build=0)
 files = {}
 for f in sorted(glob.glob('/verif/automut/*.json')):
     if f.endswith('triage.json'): continue
-    d = json.load(open(f))
+    d = json.load(open(f)); d['_path'] = f
     files.setdefault(d['file'], []).append(d)
 # a survivor of the main sweep that a re-run (fixed driver / other responsible property) caught
 recaught = {}
@@ -49,9 +53,9 @@ out = ['# Systematic mutant sweep (tools/automut.py)', '',
 unlabelled = 0
 detail = []
 for fn, ds in files.items():
-    main = [d for d in ds if d['run'] > 5] or ds
+    main = [d for d in ds if d.get('_path', '').endswith(fn.replace('/', '_') + '.json')] or ds[:1]
     for d in ds:
-        out.append('| %s | %s | %d | %d | %d | %d |' % (d['file'] + (' (survivors re-run)' if d not in main or len(ds) > 1 and d['run'] <= 5 else ''), ','.join(d['props']), d['run'], d['caught'], d['build_errors'], d['survived']))
+        out.append('| %s | %s | %d | %d | %d | %d |' % (d['file'] + (' (re-run of survivors / selected lines: ' + os.path.basename(d['_path']) + ')' if d not in main else ''), ','.join(d['props']), d['run'], d['caught'], d['build_errors'], d['survived']))
     for d in main:
         tot['run'] += d['run']; tot['caught'] += d['caught']; tot['surv'] += d['survived']; tot['build'] += d['build_errors']
         if d['survivors']:
